@@ -5,6 +5,7 @@
    merge, the callVariant loop, and the decider hygiene_ok that the end-to-end check runs on written FASTA files).
    All statements are for ALL sequences of operations (induction over fold_left), no bound on anything. *)
 From Coq Require Import ZArith List Bool.
+From MoPep Require Gen.Expasy Model.ExpasyRef Proofs.ExpasyProofs.
 From MoPep Require Import Model.Base Model.Digest Model.PepTable Model.PepFilterLang Gen.Bio Gen.PepFilter.
 From MoPep Require Import Proofs.PepTableProofs.
 Import ListNotations.
@@ -198,3 +199,10 @@ Example valid_exists :
   is_valid protein_weights4 water4 [[65;67;68;69;76]] (mkLimits 2 5000000 5 25) [65;67;68;69;76] = Some false /\
   is_valid protein_weights4 water4 [] (mkLimits 2 5000000 5 25) [65;67;88;69;76] = None.
 Proof. repeat split; vm_compute; reflexivity. Qed.
+
+(* The oracle of this property digests with the rule tables regenerated from expasy_rules.py
+   (coq/Gen/Expasy.v); they must be the ExPASy reference rules (same obligation as in Props/C10.v),
+   otherwise model and implementation would silently follow a changed rule together. *)
+Theorem rules_are_expasy_reference : MoPep.Gen.Expasy.site_rules = MoPep.Model.ExpasyRef.reference_rules.
+Proof. exact MoPep.Proofs.ExpasyProofs.rules_match_reference_proof. Qed.
+Print Assumptions rules_are_expasy_reference.
